@@ -336,6 +336,23 @@ impl<'tcx> Cx<'tcx> {
                 o = o.fb("unsafe", us);
             }
         }
+        // tuple-struct / tuple-variant constructors used as function values (`map(Some)`, `map(Borrow::Ptr)`)
+        if let DefKind::Ctor(of, _) = tcx.def_kind(did) {
+            let vdid = tcx.parent(did);
+            let adt_did = match of {
+                rustc_hir::def::CtorOf::Variant => tcx.parent(vdid),
+                rustc_hir::def::CtorOf::Struct => vdid,
+            };
+            o = o.f(
+                "ctor",
+                J::obj()
+                    .fs("adt", self.path(adt_did))
+                    .fs("adt_name", tcx.item_name(adt_did).to_string())
+                    .fs("variant", tcx.item_name(vdid).to_string())
+                    .fb("is_struct", matches!(of, rustc_hir::def::CtorOf::Struct))
+                    .done(),
+            );
+        }
         // container
         if let Some(assoc) = tcx.opt_associated_item(did) {
             let cont = assoc.container_id(tcx);
